@@ -386,14 +386,42 @@ class Stack:
         pol['site-policy'] = copy.deepcopy(pol['default'])      # a second policy that lets the owner read its objects
         pol['p' * 60] = copy.deepcopy(pol['default'])
         self.eng = kdrv.Engine(workdir=ctx.work, policies=pol)
-        self.clients = {}
-        for v, kv in KVER.items():
-            cl = ProxyKmipClient(kmip_version=kv)
-            cl.logger.setLevel(logging.CRITICAL + 1)
-            cl.proxy.logger.setLevel(logging.CRITICAL + 1)
-            cl._is_open = True
-            cl.proxy.protocol = KMIPProtocol(LoopSock(self.eng, der, chunk))
-            self.clients[v] = cl
+        self.der, self.chunk = der, chunk
+        self.clients = {v: self.new_client(v) for v in KVER}
+
+    def new_client(self, v):
+        """A fresh ProxyKmipClient (own KMIPProxy) wired to the in-process transport."""
+        from kmip.pie.client import ProxyKmipClient
+        from kmip.services.kmip_protocol import KMIPProtocol
+        cl = ProxyKmipClient(kmip_version=KVER[v])
+        cl.logger.setLevel(logging.CRITICAL + 1)
+        cl.proxy.logger.setLevel(logging.CRITICAL + 1)
+        cl._is_open = True
+        cl.proxy.protocol = KMIPProtocol(LoopSock(self.eng, self.der, self.chunk))
+        return cl
+
+    def attrs_with(self, cl, uid):
+        """get_attributes through a given client object."""
+        self.last_err = None
+        try:
+            _, attrs = cl.get_attributes(str(uid))
+        except Exception as e:
+            cl.proxy.protocol.socket.rbuf = b''
+            self.last_err = '%s: %s' % (type(e).__name__, e)
+            return None
+        return abs_attrs(attrs)
+
+    def register_with(self, cl, secret, attrs):
+        try:
+            ot, core = build_secret(secret)
+            tmpl = cobjects.TemplateAttribute(attributes=[build_attr(a) for a in attrs])
+            r = cl.proxy.register(ot, tmpl, core)
+        except Exception as e:
+            cl.proxy.protocol.socket.rbuf = b''
+            return None, ('CLIENT', type(e).__name__)
+        if r.result_status.value != E.ResultStatus.SUCCESS:
+            return None, (r.result_reason.value.name if r.result_reason else None, r.result_message.value if r.result_message else None)
+        return int(r.uuid), None
 
     def close(self):
         self.eng.close()
@@ -1260,6 +1288,158 @@ def client_history(ctx, rng, der, hid, n_calls):
     return events
 
 
+def switch_history(ctx, rng, der):
+    """ONE ProxyKmipClient object is moved between protocol versions with the documented `kmip_version` setter: for every ordered
+    pair (v1, v2) it talks under v1, is switched to v2, and must then behave as a fresh v2 client - GetAttributes of objects whose
+    attribute sets differ between versions (Sensitive from 1.4, Operation Policy Name until 1.4) and a Register that needs v2."""
+    st = Stack(ctx, der, chunk=4096)
+    events, regs = [], {}
+    K = E.KeyFormatType
+    try:
+        def reg_with(cl, ver, secret, attrs, call):
+            st.eng.clock.t += 1
+            uid, err = st.register_with(cl, secret, attrs)
+            if err and err[0] == 'CLIENT':
+                ctx.count('switch.register.refused-by-client')
+                return None
+            events.append({'e': 'register', 'ver': ver, 'owner': 'alice', 'now': st.eng.clock.t, 'secret': secret, 'attrs': attrs, 'obs': uid, 'err': err})
+            if uid is not None:
+                regs[uid] = {'uid': uid, 'ver': ver, 'now': st.eng.clock.t, 'secret': secret, 'attrs': attrs, 'state': E.State.PRE_ACTIVE.value, 'call': call}
+            return uid
+        sym = {'k': 'key', 'cls': 'CSym', 'kb': {'fmt': K.RAW.value, 'value': b'\x07' * 16, 'alg': 3, 'len': 128, 'kwd': None}}
+        base = [reg_with(st.clients[(1, 4)], (1, 4), sym, [{'kind': 'sens', 'idx': None, 'b': True}, {'kind': 'policy', 'idx': None, 's': 'site-policy'},
+                                                             {'kind': 'mask', 'idx': None, 'z': 12}], 'fresh 1.4 client'),
+                reg_with(st.clients[(1, 0)], (1, 0), {'k': 'opaque', 'ot': E.OpaqueDataType.NONE.value, 'value': b'o'},
+                         [{'kind': 'name', 'idx': 0, 'v': 'n', 't': 1}], 'fresh 1.0 client')]
+        cl = st.new_client((1, 2))
+        for v1 in VERS:
+            for v2 in VERS:
+                if v1 == v2:
+                    continue
+                cl.kmip_version = KVER[v1]
+                st.attrs_with(cl, base[1])                      # one exchange under v1
+                cl.kmip_version = KVER[v2]
+                call = 'one ProxyKmipClient switched kmip_version %d.%d -> %d.%d with the setter' % (v1 + v2)
+                for uid in [u for u in base if u is not None] + ([rng.choice(sorted(regs))] if regs else []):
+                    got = st.attrs_with(cl, uid)
+                    err = st.last_err
+                    fresh = st.attrs(v2, uid)
+                    events.append({'e': 'attrs', 'ver': v2, 'uid': uid, 'obs': got})
+                    oracle_attrs(ctx, dict(regs[uid], call=call + '; object from: ' + str(regs[uid].get('call'))), got, v2, regs[uid]['state'], call, err)
+                    if got != fresh:
+                        ctx.violation({'op': 'GET_ATTRIBUTES', 'client': 'switched-version', 'from': '%d.%d' % v1, 'to': '%d.%d' % v2},
+                                      {'call': call, 'uid': uid, 'switched_client': jsonable(got), 'fresh_client': jsonable(fresh)},
+                                      'a client switched to another KMIP version reports other attributes than a fresh client of that version')
+                    ctx.cov['evaluations'] += 1
+                ctx.case_seen(('switch', v1, v2), nontrivial=True)
+                ctx.count('switch.pair')
+                # a Register that is only valid under v2
+                attrs = [{'kind': 'mask', 'idx': None, 'z': 3}]
+                if v2 >= (1, 4):
+                    attrs.append({'kind': 'sens', 'idx': None, 'b': True})
+                if v2 < (2, 0):
+                    attrs.append({'kind': 'policy', 'idx': None, 's': 'site-policy'})
+                uid = reg_with(cl, v2, sym, attrs, call)
+                if uid is not None:
+                    got = st.attrs(v2, uid)
+                    events.append({'e': 'attrs', 'ver': v2, 'uid': uid, 'obs': got})
+                    oracle_attrs(ctx, regs[uid], got, v2, regs[uid]['state'], call, st.last_err)
+                else:
+                    ctx.violation({'op': 'REGISTER', 'client': 'switched-version', 'from': '%d.%d' % v1, 'to': '%d.%d' % v2},
+                                  {'call': call, 'attributes': jsonable(attrs), 'answer': jsonable(events[-1].get('err'))},
+                                  'a client switched to another KMIP version cannot register what a fresh client of that version can')
+    finally:
+        st.close()
+    return events
+
+
+def keypair_history(ctx, rng, der, hid, n_pairs):
+    """CreateKeyPair with the template dimension (KMIP 4.2): every optional attribute is placed in the common, the public-key and/or
+    the private-key template with different values; each key must report the value of its own template if that template has the
+    attribute, else the common one - right after creation, under other versions and after a re-open."""
+    st = Stack(ctx, der, chunk=rng.choice([7, 4096]))
+    events, regs = [], {}
+    M = E.CryptographicUsageMask
+    PLACES = [(), ('c',), ('u',), ('r',), ('c', 'u'), ('c', 'r'), ('u', 'r'), ('c', 'u', 'r')]
+    try:
+        for k in range(n_pairs):
+            st.eng.clock.t += 5
+            ver = rng.choice(VERS)
+            cl = st.clients[ver]
+            tmpl = {'c': [], 'u': [], 'r': []}
+
+            def put(kind, make, places=None):
+                pl = places if places is not None else rng.choice(PLACES)
+                for where in pl:
+                    tmpl[where] += make(where)
+                return pl
+            tag = {'c': 'common', 'u': 'public', 'r': 'private'}
+            put('name', lambda w: [{'kind': 'name', 'idx': i, 'v': '%s-name-%d-%d' % (tag[w], k, i), 't': 1} for i in range(rng.choice([1, 1, 2]))])
+            put('group', lambda w: [{'kind': 'group', 'idx': i, 'v': '%s-group-%d' % (tag[w], i)} for i in range(rng.choice([1, 2]))])
+            put('asi', lambda w: [{'kind': 'asi', 'idx': 0, 'ns': tag[w] + '-ns', 'd': 'data-%d' % k}])
+            if ver < (2, 0):
+                put('policy', lambda w: [{'kind': 'policy', 'idx': None, 's': {'c': 'default', 'u': 'site-policy', 'r': 'p' * 60}[w]}])
+            if ver >= (1, 4):
+                put('sens', lambda w: [{'kind': 'sens', 'idx': None, 'b': {'c': False, 'u': True, 'r': True}[w] if rng.random() < 0.7 else False}])
+            # the mask must reach both keys: common, or both specific templates, possibly all three
+            put('mask', lambda w: [{'kind': 'mask', 'idx': None, 'z': {'c': M.SIGN.value | M.VERIFY.value, 'u': M.VERIFY.value, 'r': M.SIGN.value | M.DECRYPT.value}[w]}],
+                rng.choice([('c',), ('u', 'r'), ('c', 'u'), ('c', 'r'), ('c', 'u', 'r')]))
+            # algorithm and length must agree on both keys; a common length that both templates override tests "specific wins"
+            put('alg', lambda w: [{'kind': 'alg', 'idx': None, 'z': E.CryptographicAlgorithm.RSA.value}], rng.choice([('c',), ('u', 'r'), ('c', 'u', 'r'), ('c', 'r')]))
+            lp = rng.choice([('c',), ('u', 'r'), ('c', 'u', 'r')])
+            put('len', lambda w: [{'kind': 'len', 'idx': None, 'z': 2048 if (w == 'c' and lp == ('c', 'u', 'r')) else 1024}], lp)
+            for w in tmpl:
+                rng.shuffle(tmpl[w])
+                for kind in ('name', 'group'):                 # keep instance order = index order
+                    inst = [a for a in tmpl[w] if a['kind'] == kind]
+                    pos = [i for i, a in enumerate(tmpl[w]) if a['kind'] == kind]
+                    for j, i in enumerate(pos):
+                        tmpl[w][i] = dict(inst[j], idx=j)
+            call = 'CreateKeyPair #%d under %d.%d: common=%s public=%s private=%s' % (k + 1, ver[0], ver[1], jsonable(tmpl['c']), jsonable(tmpl['u']), jsonable(tmpl['r']))
+            try:
+                r = cl.proxy.create_key_pair(
+                    common_template_attribute=cobjects.TemplateAttribute(attributes=[build_attr(a) for a in tmpl['c']], tag=E.Tags.COMMON_TEMPLATE_ATTRIBUTE),
+                    private_key_template_attribute=cobjects.TemplateAttribute(attributes=[build_attr(a) for a in tmpl['r']], tag=E.Tags.PRIVATE_KEY_TEMPLATE_ATTRIBUTE),
+                    public_key_template_attribute=cobjects.TemplateAttribute(attributes=[build_attr(a) for a in tmpl['u']], tag=E.Tags.PUBLIC_KEY_TEMPLATE_ATTRIBUTE))
+            except Exception as e:
+                cl.proxy.protocol.socket.rbuf = b''
+                ctx.count('keypair.refused-by-client.%s' % type(e).__name__)
+                continue
+            if r.result_status.value != E.ResultStatus.SUCCESS:
+                ctx.count('keypair.refused.%s' % (r.result_message.value if r.result_message else '')[:60])
+                continue
+            ctx.count('keypair.created')
+            ctx.case_seen(('keypair', hid, k, call), nontrivial=True)
+            events.append({'e': 'foreign'})
+            events.append({'e': 'foreign'})
+            for uid, cls, own in ((int(r.public_key_uuid), 'CPub', 'u'), (int(r.private_key_uuid), 'CPriv', 'r')):
+                eff = []
+                for kind in ('name', 'group', 'asi', 'policy', 'sens', 'mask', 'alg', 'len'):
+                    mine = [a for a in tmpl[own] if a['kind'] == kind]
+                    eff += mine if mine else [a for a in tmpl['c'] if a['kind'] == kind]
+                length = [a['z'] for a in eff if a['kind'] == 'len'][0]
+                regs[uid] = {'uid': uid, 'ver': ver, 'now': st.eng.clock.t, 'state': E.State.PRE_ACTIVE.value, 'call': call,
+                             'attrs': [a for a in eff if a['kind'] not in ('alg', 'len')],
+                             'secret': {'k': 'key', 'cls': cls, 'kb': {'alg': E.CryptographicAlgorithm.RSA.value, 'len': length}}}
+            for uid in sorted(regs)[-2:]:
+                for v in [ver] + rng.sample(VERS, 2):
+                    oracle_attrs(ctx, regs[uid], st.attrs(v, uid), v, regs[uid]['state'], 'key pair history %d after %s' % (hid, call[:40]), st.last_err)
+                    ctx.cov['evaluations'] += 1
+        st.eng.restart()
+        events.append({'e': 'restart'})
+        for uid in sorted(regs):
+            v = rng.choice(VERS)
+            oracle_attrs(ctx, regs[uid], st.attrs(v, uid), v, regs[uid]['state'], 'key pair history %d after re-opening the database' % hid, st.last_err)
+            obs = st.attr_list(v, uid)
+            exp = [a[0] for a in oracle_expected_attrs(v, uid, regs[uid]['now'], regs[uid]['state'], regs[uid]['secret'], regs[uid]['attrs'])]
+            if obs is None or sorted(set(obs)) != sorted(set(exp)):
+                ctx.violation({'op': 'GET_ATTRIBUTE_LIST', 'otype': regs[uid]['secret']['cls']},
+                              {'client_call': regs[uid]['call'], 'returned': obs, 'expected': exp}, 'GetAttributeList names differ from supplied + server-assigned attributes')
+    finally:
+        st.close()
+    return events
+
+
 CONVERT_CASES = []
 
 
@@ -1416,7 +1596,9 @@ def run(ctx):
         'versions, interleaved with Get / GetAttributes / GetAttributeList under other versions, Activate, Destroy, Locate/Query, engine '
         're-opens on the same file and a raw sqlite3 dump of the stored row; plus application-level histories in which ONE ProxyKmipClient '
         'object issues sequences of create / create_key_pair / register / derive_key calls with varying optional arguments and every object '
-        'is read back against what its own call supplied.  A case is distinct when its (secret, attributes) or '
+        'is read back against what its own call supplied; one client object switched between every ordered pair of versions with the '
+        'kmip_version setter, compared with a fresh client; CreateKeyPair with every optional attribute placed in the common / public / private '
+        'templates in all combinations.  A case is distinct when its (secret, attributes) or '
         '(history, step) differs; non-trivial = an event whose answer depends on the stored object.')
     ctx.cov['trusted_extra'] = [
         'SQLAlchemy unit of work / SQLite column affinity: modelled as "a row holds what the type decorator returned"; tied on every run by '
@@ -1446,6 +1628,10 @@ def run(ctx):
     clrng = ctx.subrng('client-histories')
     for h in range(12 if quick else 80):
         hists.append(client_history(ctx, clrng, der, 1000 + h, clrng.randint(5, 10)))
+    hists.append(switch_history(ctx, ctx.subrng('switch'), der))
+    kprng = ctx.subrng('keypairs')
+    for h in range(6 if quick else 40):
+        hists.append(keypair_history(ctx, kprng, der, 2000 + h, 5))
     crng = ctx.subrng('convert')
     for _ in range(150 if quick else 1500):
         convert_pair(ctx, g_secret(crng, crng.choice(CLASSES), 64))
